@@ -95,7 +95,7 @@ theorem matchList_loop (fuel : Nat) (obj : Val) (ps : List Val)
   unfold matchList'
   cases obj with
   | list os =>
-    simp only [Go.asList, matchV, Bool.not_true, Bool.false_eq_true, if_false]
+    simp only [Go.asList, matchV, if_true]
     induction ps with
     | nil => simp [matchAll]
     | cons p ps ih =>
@@ -169,9 +169,13 @@ theorem matchMap_noinv (fuel : Nat) (obj : Val) (pkvs : Fields)
   unfold matchMap'
   simp only [popMapBoolValue_eq, hinv, Bool.false_eq_true, if_false]
   have hloop := matchMap_fields_loop fuel
+  -- the generator emits `if r then next else ret false` for Go's `if !r { return false }`
+  have hswap : ∀ (r : Bool) (a b : G (Go.Loop Unit Bool)), (if (!r) = true then a else b) = (if r = true then b else a) := by
+    intro r a b; cases r <;> rfl
+  simp only [hswap] at hloop
   cases obj with
   | map okvs =>
-    simp only [Go.asMap, Bool.not_true, Bool.false_eq_true, if_false]
+    simp only [Go.asMap, if_true]
     by_cases hlen : okvs.length = 1
     · obtain ⟨⟨k, v⟩, rfl⟩ : ∃ kv, okvs = [kv] := by
         rcases okvs with _ | ⟨kv, _ | ⟨kv2, rest⟩⟩
